@@ -167,6 +167,11 @@ func CheckC09(c *Ctx) (*Outcome, error) {
 		return nil, err
 	}
 	found = append(found, f2...)
+	f3, err := c.RunCases(1, func(int) ([]*History, error) { return []*History{F9Probe()}, nil }, JudgeC09, note)
+	if err != nil {
+		return nil, err
+	}
+	found = append(found, f3...)
 	return c.finish("C09", "exploration", found, JudgeC09, keyC09)
 }
 
